@@ -34,7 +34,8 @@ STATE_MEASURE = ('distinct adjacent (op kind, op kind) pairs executed by '
                  'different actors, and distinct creation routes of the '
                  'trees alive at a mutation')
 
-MUTATORS = ('set', 'set_option', 'meta_set', 'add_change', 'add_file')
+MUTATORS = ('set', 'set_option', 'meta_set', 'meta_nested', 'add_change',
+            'add_file', 'generate_stats')
 
 
 def gen_actor(rng, aid, ntrees, others):
@@ -52,6 +53,17 @@ def gen_actor(rng, aid, ntrees, others):
                         'via': rng.choice(['shared_reader', 'from_bytes',
                                            'from_stream'])})
 
+    if rng.chance(0.4):
+        # several sections carrying the *same* metadata value (each handed
+        # over as its own deep copy): a parse of such a tree must still give
+        # every section its own objects
+        same = {'path': {'old': 'a', 'new': 'b'}, 'stats': {'n': [1, 2]}}
+        tn0 = names[0]
+
+        for path in ([], [0], [0, 0], [0, 1], [1, 0]):
+            ops.append({'op': 'set', 'tree': tn0, 'path': path,
+                        'attr': 'meta', 'value': same})
+
     n = rng.randint(6, 24)
     everyone = names + others
 
@@ -66,11 +78,16 @@ def gen_actor(rng, aid, ntrees, others):
             ops.append({'op': 'set', 'tree': tn, 'path': path, 'attr': attr,
                         'value': domgen.valid_value(rng, kind, attr,
                                                     gen.ENCS_COMMON)})
-        elif k < 8:
+        elif k < 7:
             path = rng.choice([[], [0], [0, 0], [1]])
             ops.append({'op': 'meta_set', 'tree': tn, 'path': path,
-                        'key': rng.choice(['k', 'stats', 'x y', 'path']),
+                        'key': rng.choice(['k', 'note', 'x y', 'path']),
                         'value': gen.gen_json_value(rng, 1)})
+        elif k < 8:
+            path = rng.choice([[], [0], [0, 0], [0, 1], [1], [1, 0]])
+            ops.append({'op': 'meta_nested', 'tree': tn, 'path': path,
+                        'key': rng.choice(['new', 'n']),
+                        'value': gen.gen_json_value(rng, 2)})
         elif k < 11:
             path = rng.choice([[], [0], [0, 0]])
             sec = rng.choice(['self', 'preamble', 'meta', 'diff'])
@@ -91,8 +108,13 @@ def gen_actor(rng, aid, ntrees, others):
         elif k < 16:
             ops.append({'op': 'write_shared', 'tree': tn})
         elif k < 17:
-            ops.append({'op': rng.choice(['eq', 'ne']), 'a': tn,
-                        'b': rng.choice(everyone)})
+            if rng.chance(0.5):
+                ops.append({'op': rng.choice(['eq', 'ne']), 'a': tn,
+                            'b': rng.choice(everyone)})
+            else:
+                # a mutator of its own tree only
+                ops.append({'op': 'generate_stats', 'tree': tn,
+                            'path': rng.choice([[], [0], [1], [0, 0]])})
         elif k < 18:
             ops.append({'op': rng.choice(['repr', 'iter', 'getattrs']),
                         'tree': tn})
@@ -106,7 +128,7 @@ def gen_actor(rng, aid, ntrees, others):
 
 
 def generate(rng, tier, cls):
-    nact = rng.randint(2, 4)
+    nact = rng.randint(2, 6 if tier == 'thorough' else 4)
     actors = []
     names = []
 
